@@ -365,14 +365,32 @@ func (c c17) Run(e *Env, cs *Case) (*Outcome, error) {
 		o.SimRuns++
 		o.Probes["determinism-pairs"]++
 		a, b := s.Steps, r2.sim.Steps
-		same := len(a) == len(b)
-		for i := 0; same && i < len(a); i++ {
+		first := -1
+		for i := 0; i < len(a) && i < len(b); i++ {
 			if a[i].Proc != b[i].Proc || a[i].Seq != b[i].Seq || a[i].Op != b[i].Op || a[i].Enabled != b[i].Enabled {
-				same = false
+				first = i
+				break
 			}
 		}
-		if !same {
+		if first < 0 && len(a) != len(b) {
+			first = min(len(a), len(b))
+		}
+		if first >= 0 {
 			o.Probes["determinism-divergences"]++
+			d := map[string]any{"first_divergence_at_step": first, "steps_run1": len(a), "steps_run2": len(b)}
+			if first < len(a) {
+				d["run1"] = fmt.Sprintf("%s#%d %s enabled=%d", a[first].Proc, a[first].Seq, a[first].Op, a[first].Enabled)
+			}
+			if first < len(b) {
+				d["run2"] = fmt.Sprintf("%s#%d %s enabled=%d", b[first].Proc, b[first].Seq, b[first].Op, b[first].Enabled)
+			}
+			if first > 0 {
+				d["previous"] = fmt.Sprintf("%s#%d %s", a[first-1].Proc, a[first-1].Seq, a[first-1].Op)
+			}
+			if m, ok := o.Sample.(map[string]any); ok {
+				m["determinism_divergence"] = d
+			}
+			e.SetExtra(fmt.Sprintf("divergence_%s", o.SchedHash), d)
 		}
 	}
 	return o, nil
